@@ -285,7 +285,7 @@ class StatementLineageHolder(SubQueryLineageHolder, ColumnLineageMixin):
         }
 
     def add_rename(self, src: Table, tgt: Table) -> None:
-        self.graph.add_edge(src, tgt, type=EdgeType.RENAME)
+        self.graph.add_edge(src, tgt, type=EdgeType.RENAME, index=len(self.rename))
 
     @staticmethod
     def of(holder: SubQueryLineageHolder) -> "StatementLineageHolder":
@@ -376,17 +376,22 @@ class SQLLineageHolder(ColumnLineageMixin):
     ) -> DiGraph:
         g = DiGraph()
         for holder in args:
+            if holder.rename and not holder.drop:
+                # pairs of one statement apply one after another, as written
+                for table_old, table_new in sorted(
+                    holder.rename, key=lambda pair: holder.graph.edges[pair]["index"]
+                ):
+                    g = nx.relabel_nodes(g, {table_old: table_new})
+                    if g.has_edge(table_new, table_new):
+                        g.remove_edge(table_new, table_new)
+                    if g.has_node(table_new) and g.degree[table_new] == 0:
+                        g.remove_node(table_new)
+                continue
             g = nx.compose(g, holder.graph)
             if holder.drop:
                 for table in holder.drop:
                     if g.has_node(table) and g.degree[table] == 0:
                         g.remove_node(table)
-            elif holder.rename:
-                for table_old, table_new in holder.rename:
-                    g = nx.relabel_nodes(g, {table_old: table_new})
-                    g.remove_edge(table_new, table_new)
-                    if g.degree[table_new] == 0:
-                        g.remove_node(table_new)
             else:
                 read, write = holder.read, holder.write
                 if len(read) > 0 and len(write) == 0:
